@@ -5,8 +5,8 @@
    over abstract driver events, flag thr = threaded).  The protocol engine is ABSTRACT in the positive
    theorems; what they assume about it is exactly [engine_facts] (ClientProofs/ImplP.v): eight
    statements built from the executable predicates fact_* of Client/Impl.v, which the C12 driver
-   evaluates on every call of the REAL engine it observes.  The refutations use the engine MODEL
-   (Engine/Instance.v) so that the engine's part of the failing behaviour is computed, not assumed. *)
+   evaluates on every call of the REAL engine it observes.  The regression theorems for the repaired
+   defects D13 / D10b run the former counterexamples on the engine MODEL (Engine/Instance.v). *)
 From GM Require Import Base.Prelude Base.Outcome Codec.Packets Engine.Model Engine.Instance
   Client.Backoff Client.Impl Client.Driver Client.MiniEngine Client.ImplEngine
   ClientProofs.ImplP ClientProofs.LifecycleW.
@@ -40,32 +40,36 @@ Theorem C12_loop_alive :
                  (dinit E e0 bc timeout) h) <> Dead.
 Proof. exact loop_alive_thm. Qed.
 
-(* ... but it dies by PANIC when connect_timeout is so large that `Instant + Duration` overflows (D10b):
-   tokio at client/mod.rs:981 when the transport connects, threaded already at threaded/mod.rs:92 *)
-Theorem C12_loop_alive_refuted_huge_timeout :
-  d_status (i_drun w_cfg false w_init_huge [(0, DOp OpStart); (0, DConnOk)]) = Panicked /\
-  d_status (i_drun w_cfg true w_init_huge [(0, DOp OpStart); (0, DCheck)]) = Panicked.
-Proof. exact loop_alive_refuted_huge_timeout. Qed.
+(* D10b (fixed by 8daf4ff): a connect_timeout of Duration::MAX no longer kills the loop — the former counterexample on
+   the engine model, both drivers — and the saturating deadline addition is total whenever the clock itself is 2^32 s
+   away from the end of the Instant range *)
+Theorem C12_loop_alive_huge_timeout :
+  d_status (i_drun w_cfg false w_init_huge [(0, DOp OpStart); (0, DConnOk)]) = Running /\
+  cur (i_drun w_cfg false w_init_huge [(0, DOp OpStart); (0, DConnOk)]) = CConnected /\
+  d_status (i_drun w_cfg true w_init_huge [(0, DOp OpStart); (0, DCheck); (0, DConnFail)]) = Running /\
+  cur (i_drun w_cfg true w_init_huge [(0, DOp OpStart); (0, DCheck); (0, DConnFail)]) = CPendingReconnect.
+Proof. exact huge_timeout_ok. Qed.
 
-(* "stop always stops" is REFUTED (D13): a stop-with-DISCONNECT requested during the CONNECT/CONNACK handshake
-   is never honoured — for both drivers and every number n of further healthy loop iterations the client is
-   Connected, desires Stopped, has emitted no Stopped event and has written nothing but the CONNECT *)
-Theorem C12_stop_stops_refuted : forall thr n,
-  cur (i_drun w_cfg thr w_init (w_d13_prefix ++ w_idle n)) = CConnected /\
-  d_status (i_drun w_cfg thr w_init (w_d13_prefix ++ w_idle n)) = Running /\
-  c_des (d_c (i_drun w_cfg thr w_init (w_d13_prefix ++ w_idle n))) = CStopped /\
-  count_stopped (d_log (i_drun w_cfg thr w_init (w_d13_prefix ++ w_idle n))) = 0%nat /\
-  d_log (i_drun w_cfg thr w_init (w_d13_prefix ++ w_idle n)) = [EvAttempt; EvSuccess] /\
-  d_wire (i_drun w_cfg thr w_init (w_d13_prefix ++ w_idle n)) = [16; 15; 0; 4; 77; 81; 84; 84; 5; 2; 0; 0; 0; 0; 2; 97; 97].
-Proof. exact stop_stops_refuted. Qed.
+Theorem C12_deadline_total : forall site t d, t + U32S <= IMAX -> exists r, add_saturating site t d = Ok r.
+Proof. exact add_saturating_total. Qed.
+
+(* D13 (fixed by d52fbbc): the former counterexample — stop-with-DISCONNECT requested during the CONNECT/CONNACK
+   handshake — on the engine model, both drivers: the client stops at the next check, one Stopped event, the attempt
+   is reported as failed, no DISCONNECT is waited for *)
+Theorem C12_stop_during_handshake_stops : forall thr,
+  cur (i_drun w_cfg thr w_init w_d13_prefix) = CStopped /\
+  d_status (i_drun w_cfg thr w_init w_d13_prefix) = Running /\
+  c_stop (d_c (i_drun w_cfg thr w_init w_d13_prefix)) = SNone /\
+  d_log (i_drun w_cfg thr w_init w_d13_prefix) = [EvAttempt; EvFailure EUserInitiatedDisconnect false; EvStopped].
+Proof. exact stop_during_handshake_stops. Qed.
 
 (* "stop stops", positive part: in EVERY reachable state of either driver (every history h) in which Stopped is desired and the
    client is not a live connection waiting for its DISCONNECT to be flushed, the next evaluation of
    compute_optional_state_transition — tokio: after every select! branch, hence right after the stop request itself;
    threaded: at the end of the current loop iteration — leaves the client Stopped, having emitted exactly one Stopped event
-   (none if it already was Stopped) and no Attempt.  The excluded state is the designed wait of stop-with-DISCONNECT; it ends
-   as soon as the connection ends (the same theorem then applies in PendingReconnect's short-circuit), and D13 above is
-   exactly the case where nothing ever ends it. *)
+   (none if it already was Stopped) and no Attempt.  The excluded state is the designed wait of stop-with-DISCONNECT, which
+   since d52fbbc is only entered with an ESTABLISHED connection whose engine has the DISCONNECT queued
+   (C12_stop_waits_only_when_established below); it ends when that DISCONNECT is flushed or the connection ends. *)
 Theorem C12_stop_stops :
   forall E U D e_tag e_user e_disc e_reset e_opened e_closed e_data e_wc e_service e_nst,
   engine_facts E U D e_tag e_user e_disc e_reset e_opened e_closed e_data e_wc e_service ->
@@ -78,6 +82,18 @@ Theorem C12_stop_stops :
               count_stopped evs = (if cstate_eqb (cur s) CStopped then 0 else 1)%nat /\
               existsb is_attempt_ev evs = false.
 Proof. intros. eapply stop_stops_reach; eauto. Qed.
+
+(* since d52fbbc a stop request leaves the client waiting for a DISCONNECT only if a connection is established (the engine is
+   Connected after the DISCONNECT was submitted, so it has queued it): in every reachable state of either driver *)
+Theorem C12_stop_waits_only_when_established :
+  forall E U D e_tag e_user e_disc e_reset e_opened e_closed e_data e_wc e_service e_nst,
+  engine_facts E U D e_tag e_user e_disc e_reset e_opened e_closed e_data e_wc e_service ->
+  forall thr e0 bc timeout, e_tag e0 = TDisconnected -> forall h now d,
+  let s := reach E U D e_tag e_user e_disc e_reset e_opened e_closed e_data e_wc e_service e_nst thr e0 bc timeout h in
+  d_status s = Running ->
+  let c' := handle_op E U D e_tag e_user e_disc e_reset (d_c s) now (OpStop d) in
+  c_stop c' = SDisc -> c_cur c' = CConnected /\ e_tag (c_eng c') = TConnected.
+Proof. intros. eapply stop_waits_only_when_established; eauto. Qed.
 
 (* restartable: whenever the client is Stopped and a start request has been handled, the next check starts an attempt *)
 Theorem C12_restartable :
